@@ -193,7 +193,7 @@ class Tokenizer:
 
     def get_lines(self, line_numbers: list[int]) -> list[str]:
         """Retrieve source lines corresponding to line numbers."""
-        if self._lines:
+        if not self._path:
             lines = self._lines
         else:
             n = len(line_numbers)
